@@ -111,6 +111,9 @@ static CUR_OP: AtomicI64 = AtomicI64::new(-1);
 static FIRED_IN_OP: AtomicI64 = AtomicI64::new(-1);
 static FIRED_KIND: AtomicI32 = AtomicI32::new(0);
 static FIRED_HINT: AtomicBool = AtomicBool::new(false);
+/// site filter: event kind to count (0 = every site kind) and file kind (-1 any, 0 data, 1 hint)
+static FILTER_KIND: AtomicI32 = AtomicI32::new(0);
+static FILTER_HINT: AtomicI32 = AtomicI32::new(-1);
 
 // perturbation
 pub const MAX_ROLES: usize = 16;
@@ -274,7 +277,14 @@ extern "C" fn pre_cb(ev: *const Event, act: *mut Action) {
             act.err = INJECT_ERRNO.load(SeqCst);
             return;
         }
-        if is_site(ev.kind, ev.flags) {
+        let fk = FILTER_KIND.load(SeqCst);
+        let fh = FILTER_HINT.load(SeqCst);
+        let filter_ok = (fk == 0 || fk == ev.kind)
+            && (fh < 0 || {
+                let fname = if ev.kind == EV_OPEN || ev.kind == EV_UNLINK { rel_of(ev.path).0 } else { fd_name(ev.fd).0 };
+                fname.ends_with(".hint") == (fh == 1)
+            });
+        if is_site(ev.kind, ev.flags) && filter_ok {
             let n = SITE_COUNTER.fetch_add(1, SeqCst);
             if n == INJECT_AT.load(SeqCst) {
                 FIRED.store(n, SeqCst);
@@ -462,6 +472,19 @@ pub fn marker(op: usize, end: bool) {
 /// fails with `errno`; with `short` a write first succeeds for half its length and the next
 /// write on the same descriptor fails.
 pub fn inject_arm(site: i64, errno: i32, short: bool) {
+    FILTER_KIND.store(0, SeqCst);
+    FILTER_HINT.store(-1, SeqCst);
+    inject_arm_inner(site, errno, short);
+}
+
+/// Arm one fault at the `nth` creation of a hint file (counted from 0).
+pub fn inject_arm_hint_create(nth: i64, errno: i32) {
+    FILTER_KIND.store(EV_OPEN, SeqCst);
+    FILTER_HINT.store(1, SeqCst);
+    inject_arm_inner(nth, errno, false);
+}
+
+fn inject_arm_inner(site: i64, errno: i32, short: bool) {
     SITE_COUNTER.store(0, SeqCst);
     FIRED.store(-1, SeqCst);
     FIRED_IN_OP.store(-1, SeqCst);
